@@ -39,6 +39,7 @@ type pathState struct {
 	nameN   map[string]int
 	reached map[string]bool
 	lenient int
+	inconcAt string
 }
 
 func (in *Interp) assert(t *Term) {
@@ -50,9 +51,24 @@ func (in *Interp) assert(t *Term) {
 }
 
 func (in *Interp) feasible(t *Term) bool {
+	if time.Since(in.pathStart) > 90*time.Second {
+		fn := ""
+		if in.cur != nil && in.cur.top != nil {
+			fn = userFrame(in.cur.top)
+		}
+		in.path.inconclusive++
+		panic(pathEnd{Verdict{Kind: "INCONCLUSIVE", Label: "path wall-clock budget (slow solver queries)", Func: fn}})
+	}
 	r := in.solver.CheckWith(in.ts, t)
+	if in.solver.Broken() {
+		in.path.inconclusive++
+		panic(pathEnd{Verdict{Kind: "INCONCLUSIVE", Label: "solver lost (hang watchdog)"}})
+	}
 	if r == Unknown {
 		in.path.inconclusive++
+		if in.cur != nil && in.cur.top != nil {
+			in.path.inconcAt = userFrame(in.cur.top) + " " + in.posOf(in.cur.top)
+		}
 		return true
 	}
 	return r == Sat
@@ -103,17 +119,19 @@ func (in *Interp) branchAt(c *Term, site ssa.Instruction) bool {
 	if c.IsConst() {
 		return c.C == 1
 	}
+	if in.siteCount[site] >= in.cfg.Unwind && len(in.path.taken) >= len(in.path.prefix) {
+		// this site has already forked Unwind times on this path: the loop is driven by an input value.
+		// The verdict is raised before the next decision so that the path condition is "still looping".
+		fn := ""
+		if b := site.Block(); b != nil {
+			fn = b.Parent().String()
+		}
+		panic(pathEnd{Verdict{Kind: "UNWIND", Label: "loop/branch site bound", Func: fn}})
+	}
 	n0 := len(in.path.taken)
 	r := in.branch(c, "if")
 	if in.path.taken[n0].N == 2 {
 		in.siteCount[site]++
-		if in.siteCount[site] > in.cfg.Unwind {
-			fn := ""
-			if b := site.Block(); b != nil {
-				fn = b.Parent().String()
-			}
-			panic(pathEnd{Verdict{Kind: "UNWIND", Label: "loop/branch site bound", Func: fn}})
-		}
 	}
 	return r
 }
@@ -279,6 +297,7 @@ type PathResult struct {
 	PCLen    int
 	Funcs    map[string]bool
 	Reached  map[string]bool
+	InconcAt string
 	Covered  string // known finding id covering the verdict, if any
 	Lenient  int
 }
@@ -300,7 +319,7 @@ func (in *Interp) resetPath(prefix []dec) {
 	in.timersFire = false
 	in.mapOrder = false
 	in.siteCount = map[ssa.Instruction]int{}
-	in.allocCap = 1 << 20
+	in.allocCap = 512*1024*1024 + 1024
 	in.stubs = map[string]FuncV{}
 	in.path = &pathState{prefix: prefix, names: map[string]*Term{}, nameN: map[string]int{}, reached: map[string]bool{}}
 	in.fnSeen = map[string]bool{}
@@ -309,6 +328,7 @@ func (in *Interp) resetPath(prefix []dec) {
 	in.timerFires = 0
 	in.maxTimerFires = 0
 	in.preempts = 0
+	in.hashUF = false
 	in.lockTrace = false
 	in.raceCheck = false
 	in.clockForce = nil
@@ -320,11 +340,23 @@ func (in *Interp) resetPath(prefix []dec) {
 // RunPath executes the harness function along the decision prefix.
 func (in *Interp) RunPath(fn *ssa.Function, prefix []dec, kf *KnownFindings, harness string) (res PathResult) {
 	in.resetPath(prefix)
+	in.pathStart = time.Now()
 	if len(in.ts.tab) > 1500000 {
 		in.ts = NewTermStore()
 	}
+	if in.solver.Broken() {
+		in.solver.Restart()
+	}
 	in.solver.Push()
+	in.extraScopes = 0
 	defer func() {
+		if in.solver.Broken() {
+			in.solver.Restart()
+			return
+		}
+		for ; in.extraScopes > 0; in.extraScopes-- {
+			in.solver.send("(pop 1)")
+		}
 		in.solver.Pop()
 	}()
 	main := &Thread{id: 0}
@@ -337,6 +369,7 @@ func (in *Interp) RunPath(fn *ssa.Function, prefix []dec, kf *KnownFindings, har
 		res.NewWork = in.path.newWork
 		res.Steps = in.steps
 		res.Inconc = in.path.inconclusive
+		res.InconcAt = in.path.inconcAt
 		res.Events = in.events
 		res.PCLen = len(in.path.pc)
 		res.Funcs = in.fnSeen
@@ -349,6 +382,15 @@ func (in *Interp) RunPath(fn *ssa.Function, prefix []dec, kf *KnownFindings, har
 			if cov, ok := in.covered(kf, harness, v); ok {
 				res.Covered = cov
 				return
+			}
+			if v.Kind == "UNWIND" || v.Kind == "ALLOC" {
+				pushed := in.pushExtremes()
+				if v.Kind == "UNWIND" && pushed == 0 && in.path.reached["opt:hangcheck"] && v.Label == "loop/branch site bound" {
+					// no integer input can be made huge on this path: the loop is bounded by a guard in the
+					// code, only longer than the unwinding bound. Outside the bound, not a hang.
+					res.Verdict = Verdict{Kind: "ASSUME", Label: "loop bounded by a guard but longer than the unwinding bound (outside bound): " + v.Func}
+					return
+				}
 			}
 			// obtain a model of the path condition (outside every known-finding class)
 			if in.solver.Check() == Sat {
@@ -537,6 +579,7 @@ type HarnessResult struct {
 	Decisions  int
 	Lenient    int
 	Truncated  bool
+	InconcAt   string
 	NonTrivial int
 }
 
@@ -596,6 +639,9 @@ func (ex *Explorer) Run(fn *ssa.Function) *HarnessResult {
 				hr.SolverTime += solver.Time - t0
 				hr.Steps += res.Steps
 				hr.Inconc += res.Inconc
+				if res.InconcAt != "" {
+					hr.InconcAt = res.InconcAt
+				}
 				hr.Decisions += len(res.Taken)
 				hr.Lenient += res.Lenient
 				for _, d := range res.Taken {
@@ -716,4 +762,31 @@ func (in *Interp) stackString() string {
 		n++
 	}
 	return sb.String()
+}
+
+// pushExtremes: for a "loop/allocation driven by an input value" verdict, prefer a model in which the
+// integer inputs are huge, so that the native replay shows the hang / allocation failure.
+func (in *Interp) pushExtremes() int {
+	pushed := 0
+	for _, nv := range in.path.vars {
+		if nv.T == nil || nv.Kind != "int64" {
+			continue
+		}
+		in.solver.define(in.ts, nv.T)
+		big := in.ts.Cmp(OSLt, in.i64(1<<40), nv.T)
+		small := in.ts.Cmp(OSLt, nv.T, in.i64(-(1 << 40)))
+		for _, c := range []*Term{big, small} {
+			in.solver.define(in.ts, c)
+			in.solver.send("(push 1)")
+			in.solver.send("(assert " + ref(c) + ")")
+			if in.solver.Check() == Sat {
+				// keep this scope: the final Pop of the path scope removes it (one level accounted below)
+				in.extraScopes++
+				pushed++
+				break
+			}
+			in.solver.send("(pop 1)")
+		}
+	}
+	return pushed
 }
